@@ -116,7 +116,7 @@ func (d *Drv) onEvent(slot int, spec *ObsSpec, h ecs.Entity, ptrs typed.Ptrs) {
 	if spec.Tuple >= 0 && id != ZeroE {
 		d.checkPtrs(h, TupleComps(spec.Tuple), ptrs, fmt.Sprintf("Observer%d callback", len(TupleComps(spec.Tuple))))
 	}
-	if spec.Probe && !d.NoProbe {
+	if spec.Probe && !d.NoProbe && d.Headroom() {
 		d.probe(slot, spec, id, h)
 	}
 	if spec.UnregSelf && d.M.Obs[slot].Registered && !d.isUnregDuring(slot) {
@@ -477,13 +477,15 @@ func (d *Drv) Sweep(deep bool) {
 			d.deepEntity(id, h, st)
 		}
 	}
-	// alive count via Filter0
-	f0 := ecs.NewFilter0(d.W)
-	q := f0.Query()
-	cnt := q.Count()
-	q.Close()
-	if cnt != m.NAlive {
-		d.viol("C02", "alive-count", "Filter0 Count()=%d, model alive %d", cnt, m.NAlive)
+	// alive count via Filter0 (needs a free lock bit: at most 64 queries may be open)
+	if d.Headroom() {
+		f0 := ecs.NewFilter0(d.W)
+		q := f0.Query()
+		cnt := q.Count()
+		q.Close()
+		if cnt != m.NAlive {
+			d.viol("C02", "alive-count", "Filter0 Count()=%d, model alive %d", cnt, m.NAlive)
+		}
 	}
 	d.Stat.LockChecks++
 	if !d.ForceUnsafe && d.W.IsLocked() != (m.Locks > 0) { // the ID-based twin does not mirror query ops
@@ -731,8 +733,14 @@ func (d *Drv) hasDeadTarget(rs ...[]RelT) bool {
 	return false
 }
 
+// Headroom reports whether monitors may open queries of their own without exceeding the 64-query limit.
+func (d *Drv) Headroom() bool { return d.M.Locks <= 56 }
+
 // CompareQuery runs an ad-hoc filter through the API kind named in the spec and judges it.
 func (d *Drv) CompareQuery(spec *FSpec, qrels []RelT) {
+	if !d.Headroom() {
+		return
+	}
 	dead := d.hasDeadTarget(spec.Rels, qrels)
 	if spec.Kind == FUnsafe {
 		r := d.runUnsafe(spec, qrels, "C03")
@@ -757,6 +765,9 @@ func (d *Drv) CompareQuery(spec *FSpec, qrels []RelT) {
 
 // CompareStanding compares every standing filter's registered instance and unregistered twin with the model and each other.
 func (d *Drv) CompareStanding(qrelsFor func(spec *FSpec) []RelT) {
+	if !d.Headroom() {
+		return
+	}
 	for i := range d.M.Filters {
 		mf := &d.M.Filters[i]
 		if !mf.Used || i >= len(d.SF) || d.SF[i].inst == nil {
